@@ -1,9 +1,222 @@
-"""C19 — see harness/pipe_check.py (shared native-pipeline correspondence on the real kernel)"""
-import pipe_check
+"""C19 — event paths keep the caller's path type and the entry's exact name, native and polling backends.
+The real InotifyObserver and PollingObserver watch the same scratch tree, given as str / bytes / pathlib.Path,
+absolute and relative (with the root's own text repeated further down), over names that are not valid in the
+file-system encoding, not NFC-normalised, and plain.  Every non-empty path of every delivered event is compared
+with WD.PT (compiled driver): Python type and, converted back with os.fsencode, the exact bytes
+root + "/" + relative name; the names must be names that really existed.  Both backends must report the same
+created paths (== on the Python objects)."""
+from __future__ import annotations
+
+import os
+import pathlib
+import shutil
+import tempfile
+import threading
+import time
+
+import common
+
+NAMES = [b"a", "café".encode(), "café".encode(), b"\xff\xfeq", b"w"]
+
+
+class Rec:
+    def __init__(self):
+        from watchdog.events import FileSystemEventHandler
+
+        rec = self
+
+        class H(FileSystemEventHandler):
+            def on_any_event(self, event):
+                rec.events.append(event)
+
+        self.events = []
+        self.handler = H()
+
+
+def hexs(b):
+    return b.hex() if b else "-"
+
+
+def scenario(kind, res, lean_lines, meta):
+    """kind: how the root is spelled. Returns a violation text or None."""
+    from watchdog.observers.inotify import InotifyObserver
+    from watchdog.observers.polling import PollingObserver
+
+    base = os.path.realpath(tempfile.mkdtemp(prefix="wdverif-c19-", dir=os.environ.get("TMPDIR") or None))
+    old_cwd = os.getcwd()
+    observers = []
+    try:
+        # the watched root is base/data ; with the relative spellings the process works from `base`
+        os.makedirs(os.path.join(base, "data", "a", "metadata", "archive"))
+        os.makedirs(os.path.join(base, "data", "w"))
+        rootB_abs = os.fsencode(os.path.join(base, "data"))
+        if kind == "str":
+            arg, rootB = os.path.join(base, "data"), rootB_abs
+        elif kind == "bytes":
+            arg, rootB = rootB_abs, rootB_abs
+        elif kind == "path":
+            arg, rootB = pathlib.Path(base, "data"), rootB_abs
+        elif kind == "relstr":
+            os.chdir(base)
+            arg, rootB = "data", b"data"
+        else:
+            os.chdir(base)
+            arg, rootB = b"data", b"data"
+        want_bytes = isinstance(arg, bytes)
+        wk = "b" if want_bytes else ("p" if kind == "path" else "s")
+        recs = {}
+        for name, cls in (("native", InotifyObserver), ("polling", lambda: PollingObserver(timeout=0.04))):
+            o = cls()
+            r = Rec()
+            o.schedule(r.handler, arg, recursive=True)
+            o.start()
+            observers.append(o)
+            recs[name] = r
+        time.sleep(0.15)
+        existed = {b"a", b"a/metadata", b"a/metadata/archive", b"w"}
+
+        def P(rel):          # absolute bytes path of a relative bytes name
+            return os.path.join(rootB_abs, rel)
+
+        def step(fn, *names):
+            fn()
+            existed.update(names)
+            time.sleep(0.16)
+
+        def touch(rel):
+            fd = os.open(P(rel), os.O_CREAT | os.O_EXCL | os.O_WRONLY)
+            os.close(fd)
+
+        for n in NAMES[1:4]:
+            step(lambda n=n: touch(n), n)
+        step(lambda: os.mkdir(P(b"d")), b"d")
+        for n in NAMES[:4]:
+            step(lambda n=n: touch(b"d/" + n), b"d/" + n)
+        step(lambda: os.rename(P(b"d"), P(b"dd")), b"dd", *[b"dd/" + n for n in NAMES[:4]])
+        step(lambda: touch(b"dd/x"), b"dd/x")
+        # the root's own text further down: data/a/metadata/archive ; rename a -> b, then a change deep inside
+        step(lambda: os.rename(P(b"a"), P(b"b")), b"b", b"b/metadata", b"b/metadata/archive")
+        step(lambda: touch(b"b/metadata/archive/f.txt"), b"b/metadata/archive/f.txt")
+        step(lambda: os.rename(P(b"dd/x"), P(b"w/" + NAMES[3])), b"w/" + NAMES[3])
+        step(lambda: os.unlink(P(NAMES[2])))
+        step(lambda: shutil.rmtree(P(b"dd")))
+        time.sleep(0.3)
+        for o in observers:
+            o.stop()
+        for o in observers:
+            o.join(5)
+        created = {}
+        for backend, r in recs.items():
+            res.bump(f"events_{backend}", len(r.events))
+            created[backend] = set()
+            for e in r.events:
+                if type(e).__name__ == "FileCreatedEvent":
+                    created[backend].add(e.src_path)
+                for p in (e.src_path, e.dest_path):
+                    if p in ("", b"", None):
+                        continue
+                    res.count()
+                    if isinstance(p, bytes) != want_bytes or not isinstance(p, (bytes, str)):
+                        return (f"{backend}: event path {p!r} is {type(p).__name__}, the watched path was given as "
+                                f"{type(arg).__name__} ({type(e).__name__})")
+                    raw = os.fsencode(p)
+                    if raw == rootB or raw == rootB + b"/":
+                        rel = b""
+                    elif raw.startswith(rootB + b"/"):
+                        rel = raw[len(rootB) + 1:]
+                    else:
+                        return (f"{backend}: event path {p!r} is not the watched path joined with a relative name "
+                                f"(watched {arg!r}, {type(e).__name__})")
+                    if rel and rel not in existed:
+                        return (f"{backend}: event path {p!r} names {rel!r}, which never existed under the watched root "
+                                f"({type(e).__name__}, synthetic={e.is_synthetic})")
+                    comps = [c for c in rel.split(b"/") if c]
+                    res.nontrivial((kind, backend, rel, type(e).__name__))
+                    if e.is_synthetic and backend == "native" and len(comps) > 1:
+                        line = f"evpath sub {wk} {hexs(rootB)} 1 {hexs(comps[0])} {len(comps) - 1} " + " ".join(hexs(c) for c in comps[1:])
+                    else:
+                        line = (f"evpath {'native' if backend == 'native' else 'polling'} {wk} {hexs(rootB)} {len(comps)} "
+                                + " ".join(hexs(c) for c in comps) + " 0").replace("  ", " ")
+                    lean_lines.append(line)
+                    meta.append((kind, backend, ("b:" if isinstance(p, bytes) else "s:") + (rootB + (b"/" + rel if rel else b"")).hex(), repr(p)))
+        only_n = {p for p in created["native"] - created["polling"]}
+        only_p = {p for p in created["polling"] - created["native"]}
+        if only_n or only_p:
+            return (f"the native and the polling observer disagree on the created paths: native only {sorted(map(repr, only_n))[:4]}, "
+                    f"polling only {sorted(map(repr, only_p))[:4]} (root given as {kind})")
+        return None
+    finally:
+        for o in observers:
+            try:
+                o.stop()
+            except Exception:  # noqa: BLE001
+                pass
+        os.chdir(old_cwd)
+        shutil.rmtree(base, ignore_errors=True)
+
+
+def double_schedule(cls_name):
+    """the same directory scheduled twice on one observer, as str and as bytes: each handler gets its own type"""
+    from watchdog.observers.inotify import InotifyObserver
+    from watchdog.observers.polling import PollingObserver
+
+    base = os.path.realpath(tempfile.mkdtemp(prefix="wdverif-c19-", dir=os.environ.get("TMPDIR") or None))
+    o = InotifyObserver() if cls_name == "native" else PollingObserver(timeout=0.04)
+    try:
+        rs, rb = Rec(), Rec()
+        o.schedule(rs.handler, base, recursive=True)
+        o.schedule(rb.handler, os.fsencode(base), recursive=True)
+        o.start()
+        time.sleep(0.15)
+        fd = os.open(os.path.join(base, "f"), os.O_CREAT | os.O_WRONLY)
+        os.close(fd)
+        time.sleep(0.4)
+        for r, want in ((rs, str), (rb, bytes)):
+            if not r.events:
+                return f"{cls_name}: the handler scheduled with a {want.__name__} path received nothing"
+            for e in r.events:
+                for p in (e.src_path, e.dest_path):
+                    if p not in ("", b"") and type(p) is not want:
+                        return (f"{cls_name}: the handler scheduled with a {want.__name__} path received {p!r} "
+                                f"({type(p).__name__}) - same directory scheduled as str and as bytes on one observer")
+        return None
+    finally:
+        o.stop()
+        o.join(5)
+        shutil.rmtree(base, ignore_errors=True)
 
 
 def run(res, tier, lean, proof_breaks=(), build_log=""):
-    pipe_check.run(res, tier, lean, prop="C19", proof_breaks=proof_breaks, build_log=build_log)
+    res.cov["rule"] = ("every non-empty src/dest path of every event the real InotifyObserver and PollingObserver deliver for a fixed "
+                       "history (create, nested create, directory rename with synthetic events, deep change after a rename, move, "
+                       "delete, rmtree) over plain / non-NFC / undecodable names, root given as str, bytes, pathlib.Path, relative "
+                       "str and relative bytes; distinct = (root spelling, backend, relative name, event class)")
+    kinds = ["str", "bytes", "path", "relstr", "relbytes"]
+    lean_lines, meta = [], []
+    for k in kinds:
+        v = scenario(k, res, lean_lines, meta)
+        res.bump("scenarios")
+        if v:
+            res.violation(f"C19 violated: {v}", {"root_spelling": k, "names": [n.hex() for n in NAMES]}, signature="c19-judge")
+            break
+    if not res.violations:
+        for cls_name in ("native", "polling"):
+            v = double_schedule(cls_name)
+            res.count()
+            if v:
+                res.violation(f"C19 violated: {v}", {"scenario": "double schedule str+bytes", "backend": cls_name},
+                              signature="c19-double-schedule")
+                break
+    outs = lean.run(lean_lines)
+    bad = [(l, o, m) for l, o, m in zip(lean_lines, outs, meta) if o != m[2]]
+    res.cov["traces_validated_against_impl"] = len(lean_lines)
+    if lean_lines:
+        res.sample({"request": lean_lines[0], "model": outs[0], "implementation": meta[0][2], "path": meta[0][3]})
+        res.sample({"request": lean_lines[-1], "model": outs[-1], "implementation": meta[-1][2], "path": meta[-1][3]})
+    if bad and not res.violations:
+        l, o, m = bad[0]
+        res.violation(f"event path differs from WD.PT: root spelling {m[0]}, backend {m[1]}, delivered {m[3]} = {m[2]}, model {o}",
+                      {"request": l, "model": o, "implementation": m[2], "mismatches": len(bad)}, signature="c19-model")
 
 
 def replay(res, path, lean):
